@@ -137,7 +137,7 @@ def doGpd (N D : Nat) (x : Array Rat) (perp : Rat) (o : Option (Array Rat)) : St
         let row := rowDense expR dblMin (DD n) n st.beta
         let s := rowSum dblMin row
         (margin, absR st.beta, (List.finRange N).map fun m => row m / s)
-      if res.any fun r => decide (r.1 < 1 / two 30) || decide ((1000000 : Rat) < r.2.1) then "skip:near-tie" else
+      if res.any fun r => decide (r.1 < 1 / two 30) || decide (two 80 < r.2.1) then "skip:near-tie" else
       cmpLists p.toList (res.flatMap fun r => r.2.2) tol30
     s!"cmp={cmp} rows={sh (·.1)} ent={sh (·.2.1)} gauss={sh (·.2.2.1)}"
 
@@ -164,7 +164,7 @@ def doGpk (N D K : Nat) (x : Array Rat) (perp : Rat) (oc : Option (Array Nat)) (
     let first (f : _ → Bool) (g : _ → String) : String := match rows.find? (fun r => !f r) with
       | none => s!"ok:{N}" | some r => s!"BAD:row={r.1}:{g r}"
     let cmp :=
-      if rows.any fun r => decide (r.2.2.2.1 < 1 / two 30) || decide ((1000000 : Rat) < r.2.2.2.2.1) then "skip:near-tie"
+      if rows.any fun r => decide (r.2.2.2.1 < 1 / two 30) || decide (two 80 < r.2.2.2.2.1) then "skip:near-tie"
       else cmpLists (rows.flatMap (·.2.2.2.2.2.1)) (rows.flatMap (·.2.2.2.2.2.2)) tol30
     s!"cmp={cmp} nbrs={first (·.2.1) (fun _ => "not-the-K-nearest")} rows={first (·.2.2.1.1) (·.2.2.1.2.2.2)} ent={first (·.2.2.1.2.1) (·.2.2.1.2.2.2)} gauss={first (·.2.2.1.2.2.1) (·.2.2.1.2.2.2)}"
   | _, _ => "cmp=BAD:nonfinite nbrs=BAD:nonfinite rows=BAD:nonfinite ent=BAD:nonfinite gauss=BAD:nonfinite"
@@ -221,7 +221,10 @@ def vpWf (pt : Nat → List Rat) : VpNode Rat → Nat → Nat → Bool
     else if hi - lo = 1 then l.isNil && r.isNil && decide (thr = 0)
     else
       let med := (hi + lo) / 2
-      decide (thr = vpDistance (pt lo) (pt med)) &&
+      -- `threshold = distance(items[lower], items[median])` at construction time; the right subtree may later move
+      -- that item inside `[median, upper)` (its own vantage swap), so: the threshold is attained in the right range,
+      -- nothing left of the median is farther, nothing right of it nearer (the nth_element postcondition)
+      ((List.range' med (hi - med)).any fun j => decide (thr = vpDistance (pt lo) (pt j))) &&
       ((List.range' (lo + 1) (med - lo - 1)).all fun j => decide (vpDistance (pt lo) (pt j) ≤ thr)) &&
       ((List.range' med (hi - med)).all fun j => decide (thr ≤ vpDistance (pt lo) (pt j))) &&
       vpWf pt l (lo + 1) med && vpWf pt r med hi
